@@ -53,6 +53,7 @@ let () = read_lines_iter (fun line ->
     start ();
     Printf.printf "cfg rev=%d calls=%s\n" (trev ()) (calls_str ())
   | "cfg" :: _ -> print_endline "E cfg"
+  | ["probe"; _] -> print_endline "probe ok"
   | ["backoff"; mn; mx; n] ->
     Printf.printf "backoff=%d\n" (int_of_n (duration (n_of_int (int_of_string mn)) (n_of_int (int_of_string mx)) (n_of_int (int_of_string n))))
   | "backoff" :: _ -> print_endline "E backoff"
